@@ -689,3 +689,169 @@ func fieldName(t types.Type, idx int) string {
 	}
 	return "struct." + st.Field(idx).Name()
 }
+
+// FoldPredicate constant-folds a loop-free, call-free function for given
+// integer values of the receiver's fields (keyed by field name) and returns
+// its single result. ok is false as soon as anything outside that fragment
+// (a call, a loop, a store, an unknown value) is met.
+func FoldPredicate(fn *ssa.Function, fields map[string]int64) (res int64, ok bool) {
+	if fn == nil || len(fn.Blocks) == 0 {
+		return 0, false
+	}
+	val := map[ssa.Value]int64{}
+	var get func(v ssa.Value) (int64, bool)
+	get = func(v ssa.Value) (int64, bool) {
+		if k, ok := ConstInt(v); ok {
+			return k, true
+		}
+		if c, ok := v.(*ssa.Const); ok && c.Value != nil {
+			switch c.Value.String() {
+			case "true":
+				return 1, true
+			case "false":
+				return 0, true
+			}
+		}
+		x, ok := val[v]
+		return x, ok
+	}
+	b2i := func(b bool) int64 {
+		if b {
+			return 1
+		}
+		return 0
+	}
+	seen := map[*ssa.BasicBlock]bool{}
+	var prev *ssa.BasicBlock
+	cur := fn.Blocks[0]
+	for steps := 0; steps < 64; steps++ {
+		if seen[cur] {
+			return 0, false
+		}
+		seen[cur] = true
+		var next *ssa.BasicBlock
+		for _, in := range cur.Instrs {
+			switch x := in.(type) {
+			case *ssa.DebugRef:
+			case *ssa.FieldAddr, *ssa.Alloc:
+			case *ssa.Store:
+				// spill of a value receiver into its local copy
+				if _, isAlloc := x.Addr.(*ssa.Alloc); !isAlloc {
+					return 0, false
+				}
+			case *ssa.Field:
+				name := fieldName(x.X.Type(), x.Field)
+				if i := strings.LastIndex(name, "."); i >= 0 {
+					name = name[i+1:]
+				}
+				v, ok := fields[name]
+				if !ok {
+					return 0, false
+				}
+				val[x] = v
+			case *ssa.UnOp:
+				switch x.Op {
+				case token.MUL:
+					fa, ok := x.X.(*ssa.FieldAddr)
+					if !ok {
+						return 0, false
+					}
+					name := fieldName(fa.X.Type(), fa.Field)
+					if i := strings.LastIndex(name, "."); i >= 0 {
+						name = name[i+1:]
+					}
+					v, ok := fields[name]
+					if !ok {
+						return 0, false
+					}
+					val[x] = v
+				case token.NOT:
+					v, ok := get(x.X)
+					if !ok {
+						return 0, false
+					}
+					val[x] = 1 - v
+				default:
+					return 0, false
+				}
+			case *ssa.Convert:
+				v, ok := get(x.X)
+				if !ok {
+					return 0, false
+				}
+				val[x] = v
+			case *ssa.BinOp:
+				a, ok1 := get(x.X)
+				b, ok2 := get(x.Y)
+				if !ok1 || !ok2 {
+					return 0, false
+				}
+				switch x.Op {
+				case token.EQL:
+					val[x] = b2i(a == b)
+				case token.NEQ:
+					val[x] = b2i(a != b)
+				case token.LSS:
+					val[x] = b2i(a < b)
+				case token.LEQ:
+					val[x] = b2i(a <= b)
+				case token.GTR:
+					val[x] = b2i(a > b)
+				case token.GEQ:
+					val[x] = b2i(a >= b)
+				case token.ADD:
+					val[x] = a + b
+				case token.SUB:
+					val[x] = a - b
+				case token.MUL:
+					val[x] = a * b
+				case token.AND:
+					val[x] = a & b
+				case token.OR:
+					val[x] = a | b
+				default:
+					return 0, false
+				}
+			case *ssa.Phi:
+				found := false
+				for i, p := range cur.Preds {
+					if p == prev {
+						v, ok := get(x.Edges[i])
+						if !ok {
+							return 0, false
+						}
+						val[x] = v
+						found = true
+					}
+				}
+				if !found {
+					return 0, false
+				}
+			case *ssa.If:
+				v, ok := get(x.Cond)
+				if !ok {
+					return 0, false
+				}
+				if v != 0 {
+					next = cur.Succs[0]
+				} else {
+					next = cur.Succs[1]
+				}
+			case *ssa.Jump:
+				next = cur.Succs[0]
+			case *ssa.Return:
+				if len(x.Results) != 1 {
+					return 0, false
+				}
+				return get(x.Results[0])
+			default:
+				return 0, false
+			}
+		}
+		if next == nil {
+			return 0, false
+		}
+		prev, cur = cur, next
+	}
+	return 0, false
+}
